@@ -156,9 +156,11 @@ func serverSide(name string, emits []srvEmit, wrongID bool, cut time.Duration, b
 			s.OnEvent("after", func() { sv.Do(func() { afterOK = true }) })
 			sv.Do(func() { sock = s })
 		})
+		vsched.SetExploring(false) // set-up on the default schedule (an early connect timeout would end the scenario before it starts)
 		f := vrig.NewFakeEIO(srv, "c03")
 		f.ConnectNS("/")
 		vsched.Await(func() bool { return sock != nil })
+		vsched.SetExploring(true)
 		for i, em := range emits {
 			i, em := i, em
 			cb := func(s string) { logs[i].add("nil|" + s) }
@@ -391,10 +393,12 @@ func clientOnline(name string, delays []time.Duration, attachments int, cut time
 		sock := mgr.Socket("/", nil)
 		connected := false
 		sock.OnConnect(func() { sv.Do(func() { connected = true }) })
+		vsched.SetExploring(false)
 		sock.Connect()
 		// the server runs connection handlers asynchronously after its CONNECT reply: wait until the
 		// event handlers exist (an event overtaking their registration is C01's business, not C03's)
 		vsched.Await(func() bool { return connected && registered })
+		vsched.SetExploring(true)
 		logs := make([]*cbLog, len(delays))
 		for i := range delays {
 			i := i
